@@ -11,7 +11,7 @@ class _RL(dict):
 UNIT_RLIMIT = _RL({"div_small": 80, "mul_redc": 80})      # unit -> --rlimit (Verus default is 10; 5x head-room over the measured maximum)
 UNIT_TIMEOUT = {"knuth": 1500, "addmul": 900, "mul_redc": 1200}     # unit -> seconds
 UNIT_EXPECT = {       # unit -> minimum number of verified functions on the unchanged tree (vacuity guard)
-    "core": 31, "add": 29, "kernels": 79, "addmul": 71, "addmul_n": 73, "mul": 51, "divd": 45, "div_small": 235, "knuth": 145, "mul_redc": 126, "basics": 22, "pow": 38, "divw": 54, "modular": 70, "spigot": 44, "gcd": 24, "forward": 57, "invring": 47, "bitlen": 81, "shifts": 131, "recip_table": 2, "gcdext": 67, "gcdw": 36, "bits": 78, "conv": 44, "lehmer": 38, "jebelean": 92, "logs": 27, "forward_shift": 81, "fmt_consts": 5, "rotate": 27, "popcount": 29, "conv_slice": 54, "conv_prim": 53, "absdiff": 15, "frombase": 52,
+    "core": 31, "add": 29, "kernels": 79, "addmul": 71, "addmul_n": 73, "mul": 51, "divd": 45, "div_small": 235, "knuth": 145, "mul_redc": 126, "basics": 22, "pow": 38, "divw": 54, "modular": 70, "spigot": 44, "gcd": 24, "forward": 57, "invring": 47, "bitlen": 81, "shifts": 131, "recip_table": 2, "gcdext": 67, "gcdw": 36, "bits": 78, "conv": 44, "lehmer": 38, "jebelean": 92, "logs": 27, "forward_shift": 81, "fmt_consts": 5, "rotate": 27, "popcount": 29, "conv_slice": 54, "conv_prim": 53, "absdiff": 15, "frombase": 71,
 }
 
 COMMON_TRUST = [
@@ -341,19 +341,20 @@ PROPS = {
     "C09": dict(
         level="proof",
         level_text="Verus proves SpigotLittle::next (the step behind to_base_le / to_base_be) for all LIMBS, values and bases >= 2: None and unchanged state for zero, otherwise Some(value mod base) and the state "
-                   "becomes floor(value / base) - so the digit iterator yields exactly the base-b digits; and from_base_be for ALL widths, bases and digit strings of ANY length (unit frombase): InvalidBase for base < 2, otherwise the string is scanned from the most "
-                   "significant end and Ok(value) is returned exactly when every digit is < base and the Horner value is < 2^BITS, InvalidDigit(d, base) for the first invalid digit reached, Overflow as soon as a valid prefix denotes a value >= 2^BITS "
-                   "(inner carry loop: result*base + digit limb by limb); Kani checks from_base_le/be, from_str_radix (alphabets, errors) and FromStr prefix sniffing at small widths with constant bases",
+                   "becomes floor(value / base) - so the digit iterator yields exactly the base-b digits; and from_base_be and from_base_le for ALL widths, bases and digit strings of ANY length (unit frombase): InvalidBase for base < 2, otherwise the string is scanned in its own order "
+                   "and Ok(value) is returned exactly when every digit is < base and the denoted value is < 2^BITS, InvalidDigit(d, base) for the first invalid digit reached, Overflow as soon as a valid prefix denotes a value >= 2^BITS "
+                   "(be: Horner step result*base + digit limb by limb; le: result += digit*power through the proved addmul_nx1 / mul_nx1 kernels, and once base^k >= 2^BITS every further digit must be zero); Kani checks from_base_le/be, from_str_radix (alphabets, errors) and FromStr prefix sniffing at small widths with constant bases",
         level_note="NOT decided: Display/Debug/LowerHex/UpperHex/Octal/Binary formatting (core::fmt machinery behind write!/pad_integral: neither verifier models it at feasible cost) - only its per-base constants are pinned "
-                   "(unit fmt_consts: MAX = base^WIDTH, WIDTH >= 1, PREFIX, decided by evaluation of the extracted initialisers); from_base_le / from_str_radix only bounded "
-                   "(digit strings <= 4, constant bases, widths 8/16(/65)); to_base_be's Vec reversal is not separately proved; declared rewrites in from_base_be: the iterator parameter `I: IntoIterator<Item = u64>` is instantiated with a slice "
-                   "iterator (the function uses `digits` only through one `for` loop), `for limb in &mut result.limbs` -> `.iter_mut()`, `#[verifier::truncate]` on `carry as u64`",
+                   "(unit fmt_consts: MAX = base^WIDTH, WIDTH >= 1, PREFIX, decided by evaluation of the extracted initialisers); from_str_radix only bounded "
+                   "(digit strings <= 4, constant bases, widths 8/16(/65)); to_base_be's Vec reversal is not separately proved; declared rewrites in from_base_be / from_base_le: the iterator parameter `I: IntoIterator<Item = u64>` is instantiated with a slice "
+                   "iterator (the functions use `digits` only through the Iterator protocol), `for digit in iter.by_ref()` / `for digit in iter` are written as their definition `while let Some(d) = iter.next()`, "
+                   "`for limb in &mut result.limbs` -> `.iter_mut()`, `#[verifier::truncate]` on `carry as u64`; vstd's specification of slice::Iter::next is trusted",
         technique="deductive contract (Verus, all widths/bases) for the digit step + Kani bounded contract harnesses for parsing",
         units=["spigot", "fmt_consts", "frombase"],
         kani=dict(features=None, quick=hs("c09"), thorough=hs("c09"), bounds="see module header of kani/src/c09.rs"),
         explanation="invariant of Knuth's algorithm S over the reversed limb iterator: processed high limbs hold the quotient, remainder < base",
         trusted=COMMON_TRUST,
-        not_decided=["formatting traits (Display, Debug, LowerHex, UpperHex, Octal, Binary)", "from_base_le and from_str_radix beyond the stated bounds"],
+        not_decided=["formatting traits (Display, Debug, LowerHex, UpperHex, Octal, Binary)", "from_str_radix / FromStr beyond the stated bounds; from_base_* called with iterators other than a slice iterator (parametricity argument, not mechanised)"],
     ),
     "C10": dict(
         level="proof",
